@@ -192,7 +192,7 @@ def ev_is_join(e):
     return is_join({'path': e['path']})
 
 
-@rule('S2', props=['C07', 'C08', 'C12'], floor=3, configs=('all',))
+@rule('S2', props=['C07', 'C08', 'C12', 'C15'], floor=3, configs=('all',))
 def s2_flag_iff_ran(prog):
     """run_add_ons, decided per CFG path: the first component of the returned tuple is `true` exactly on
     the paths that run the task (inside a rayon::join, exactly once), `false` on all others; every path
@@ -396,7 +396,7 @@ def claim_map_writes(p):
     return out
 
 
-@rule('S3q', props=['C08', 'C07'], floor=1, configs=('all',))
+@rule('S3q', props=['C08', 'C07', 'C12'], floor=1, configs=('all',))
 def s3_query_archetype_identifiers(prog):
     """query_archetype_identifiers, per CFG path: every path on which a try_merge of claims failed returns
     false; every occupied entry is overwritten only with the successful try_merge of its previous claims
